@@ -863,7 +863,7 @@ class Pipe:
                         report_unsound(self.ck, rings, dbl, pyr, bs, y, v, label)
                 cases.append((kc_case(rings, dbl, dbs, pyr, bs, k_yields, ys, raised, verdicts), ('search', label, list(m0._atoms), bs), 'prep'))
                 self.ck.case(('search', label, tuple(m0._atoms), bs, tuple(rings)), nontrivial=bool(ys))
-                self.ck.count('search: component ' + ('satisfies' if component_wf(rings, dbl, pyr) else 'does not satisfy') + ' the hypotheses of kekule_component_sound_partial')
+                self.ck.count('search: component ' + ('satisfies' if component_wf(rings, dbl, pyr) else 'does not satisfy') + ' the hypotheses of kekule_component_sound')
                 self.ck.count(f'search: buffer={bs}: {"InvalidAromaticRing" if raised else str(len(ys)) + " form(s) compared"}')
 
     def report_valence(self, src, res, ve, ve_before, dom, label, code):
@@ -1154,9 +1154,8 @@ def kc_case(rings, dbl, dbs, pyr, bs, k_yields, ys, raised, verdicts):
 
 
 def component_wf(rings, db, pyr):
-    """independent statement of Proofs.KekuleSound.rings_wf2, the hypotheses of kekule_component_sound_partial: simple symmetric
-    connected skeleton, two or three neighbours per atom, positive numbers, the two sets disjoint subsets of it, every
-    pyrrole-type atom with two skeleton neighbours"""
+    """independent statement of Proofs.KekuleSound.rings_wf2, the hypotheses of kekule_component_sound: simple symmetric
+    connected skeleton, two or three neighbours per atom, positive numbers, the two sets disjoint subsets of it"""
     if not rings or any(n <= 0 for n in rings):
         return False
     for n, ms in rings.items():
@@ -1172,7 +1171,7 @@ def component_wf(rings, db, pyr):
         return False
     if len(set(db)) != len(db) or len(set(pyr)) != len(pyr) or not set(db) <= set(rings) or not set(pyr) <= set(rings) or set(db) & set(pyr):
         return False
-    return all(len(rings[v]) == 2 for v in pyr)
+    return True
 
 
 def form_unsound(rings, db, pyr, path):
